@@ -73,6 +73,31 @@ def gen_step(w, rg, slices=True, reads=None, muts=None, allow_removed=False):
     if h.state == "removed":
         st = G.gen_op_step(rg, w, _fake_attached(w, h), depth=1, mut_weight=1.0)
         return st
+    if cfg.get("p_synced_operand") and rg.random() < cfg["p_synced_operand"]:
+        # comparison against ANOTHER synced handle (often of another object that is stale w.r.t. the backend)
+        others = [x for x in hs if x.kind == h.kind and x is not h]
+        if others:
+            o = G.pick(rg, [x for x in others if x.oid != h.oid] or others)
+            from ..core.values import get_path
+            name = G.pick(rg, ["eq", "ne"] if h.kind == "dict" else ["eq", "ne", "lt", "le", "gt", "ge"])
+            if name in ("lt", "le", "gt", "ge"):
+                a, b = get_path(r.model, h.path), get_path(w.res[w.objs[o.oid].rid].model, o.path)
+                if not (G.comparable(a) and G.comparable(b)):
+                    name = "eq"
+            w.probe("synced_operand")
+            return {"t": "op", "hid": h.hid, "name": name, "args": [{"$handle": o.hid}]}
+    if cfg.get("p_handle_store") and rg.random() < cfg["p_handle_store"]:
+        # store a synced node (a copy is expected) into some position
+        from ..core.values import get_path
+        src = G.pick(rg, hs)
+        c = get_path(r.model, h.path)
+        operand = {"$handle": src.hid}
+        if h.kind == "dict":
+            name, args = G.pick(rg, [("setitem", [G.gen_key(rg, w.fresh, c, 0.3), operand]), ("update", [{G.gen_key(rg, w.fresh, c, 0.3): operand}])])
+        else:
+            name, args = G.pick(rg, [("append", [operand]), ("insert", [rg.randint(0, len(c)), operand])])
+        w.probe("handle_store")
+        return {"t": "op", "hid": h.hid, "name": name, "args": args}
     if rg.random() < cfg["p_nav"]:
         st = G.gen_navigate_step(rg, w, h)
         if st:
